@@ -24,12 +24,85 @@ MGR = 'dht_network_manager::DhtNetworkManager'
 CLAMP = re.compile(r'::(saturating_add|saturating_sub|wrapping_add|wrapping_sub|min|max|clamp)$')
 
 
+ITER_OK = re.compile(r'iter::Iterator::(flat_map|map|cloned|copied|flatten|chain|enumerate|inspect|rev|by_ref|collect)$|IntoIterator::into_iter$')
+ITER_CUT = re.compile(r'iter::Iterator::(filter|filter_map|take|take_while|skip|skip_while|step_by|map_while|find|find_map|scan|zip|nth|last|peekable|fuse)$')
+
+
+def _collect_chain(prog, fc, sorts):
+    """the iterator-chain form of the bucket scan: returns (all adapters pass every element, root is self.buckets,
+    [cutting adapters], key uses DhtKey::distance, where) or None when the sorted vector is not built by collect()"""
+    recv = L.operand_root(sorts[0].args[0]) if sorts[0].args else None
+    if recv is None:
+        return None
+    cls = L.alias_of(fc, [recv])
+    col = [c for c in fc.calls() if c.declared.endswith('iter::Iterator::collect') and c.dest and c.dest[0] in cls]
+    if not col:
+        return None
+    c = col[0]
+    e = fc.expr(c.args[0])
+    bad = []
+    okc = True
+    dist = False
+    for x in e.walk():
+        if x.k == 'call' and x.c is not None:
+            d = x.c.declared
+            if ITER_CUT.search(d):
+                bad.append(d.rsplit('::', 1)[-1])
+            elif d.startswith('std::iter::Iterator::') or d.startswith('core::iter::Iterator::'):
+                if not ITER_OK.search(d):
+                    okc = False
+        if x.k == 'agg' and x.d == 'closure' and x.a in prog.bodies:
+            for cid in prog.family(x.a):
+                cb = prog.bodies[cid]
+                for cc in cb.calls():
+                    if ITER_CUT.search(cc.declared):
+                        bad.append(cc.declared.rsplit('::', 1)[-1])
+                    if cc.callee.endswith('DhtKey::distance'):
+                        dist = True
+    root_ok = any(x.k == 'field' and isinstance(x.b, str) and x.b.endswith('::buckets') for x in e.walk())
+    return okc, root_ok, bad, dist, c.where()
+
+
 def _const_le(prog, e, limit):
     st = e.strip()
     v = st.const_value()
     if v is None and st.k == 'const' and st.d in prog.consts:
         v = prog.const_val(st.d)
     return isinstance(v, int) and not isinstance(v, bool) and v <= limit
+
+
+def bounded_by(prog, b, e, limit):
+    """is the value provably <= limit?  min(.., C), a constant, or a local every definition of which is a constant <= limit
+    or a copy of y made under a dominating `y <= C` / `y < C` fact (the if/else spelling of min)"""
+    top = e.strip()
+    if top.k == 'call' and re.search(r'::min$|cmp::min$', top.a) and any(_const_le(prog, a, limit) for a in top.b):
+        return True
+    if top.k == 'call' and re.search(r'::clamp$', top.a) and len(top.b) == 3 and _const_le(prog, top.b[2], limit):
+        return True
+    if _const_le(prog, e, limit):
+        return True
+    if top.k in ('local', 'let') and isinstance(top.a, int):
+        ds = b.defs().get(top.a, [])
+        if len(ds) < 2:
+            return False
+        for d in ds:
+            if d[0] != 's':
+                return False
+            v = F.Expr.of_rvalue(b, d[3]['r'], 20)
+            if _const_le(prog, v, limit):
+                continue
+            vt = v.strip().show()
+            ok = False
+            for cd in F.dominating_conds(b, d[1]):
+                if cd.kind != 'cmp':
+                    continue
+                for x, y, op in ((cd.lhs, cd.rhs, cd.op), (cd.rhs, cd.lhs, F.CMP_FLIP[cd.op])):
+                    if x.strip().show() == vt and op in ('Le', 'Lt') and _const_le(prog, y, limit if op == 'Le' else limit + 1):
+                        ok = True
+            if not ok:
+                return False
+        return True
+    return False
 
 
 def _count_class(prog, b, e, depth):
@@ -39,6 +112,13 @@ def _count_class(prog, b, e, depth):
     if top.k == 'call' and re.search(r'::min$|cmp::min$', top.a) and any(_const_le(prog, a, 20) for a in top.b):
         return 'capped', 'min(.., <= 20): ' + e.brief(70)
     peer = any(x.k == 'downcast' and x.b == 'FindNode' for x in e.walk())
+    if not peer and top.k in ('local', 'let') and isinstance(top.a, int):
+        # a multi-definition local (if/else): peer-supplied when one of its definitions reads the message field
+        for d in b.defs().get(top.a, []):
+            if d[0] == 's' and any(x.k == 'downcast' and x.b == 'FindNode' for x in F.Expr.of_rvalue(b, d[3]['r'], 20).walk()):
+                peer = True
+    if peer and bounded_by(prog, b, e, 20):
+        return 'capped', 'bounded by <= 20 on every path: ' + e.brief(70)
     if peer:
         return 'uncapped', 'the peer-supplied count reaches the lookup uncapped (%s): one request returns the whole routing table' % e.brief(70)
     if _const_le(prog, e, 20):
@@ -78,20 +158,8 @@ def run(ctx):
     for cs in hr.calls(r'::find_closest_nodes$'):
         n += 1
         cnt = hr.expr(cs.args[2])
-        m = cnt.mentions_call(r'::min$')
-        okc = False
         detail = cnt.brief(80)
-        if m is not None:
-            cvals = [x.const_value() for x in m.b]
-            named = [x.strip().d for x in m.b if x.strip().k == 'const' and x.strip().d]
-            vals = [v for v in cvals if v is not None] + [prog.const_val(d) for d in named if d in prog.consts]
-            okc = any(v is not None and v <= 20 for v in vals)
-        else:
-            v = cnt.const_value()
-            st = cnt.strip()
-            if v is None and st.k == 'const' and st.d in prog.consts:
-                v = prog.const_val(st.d)
-            okc = v is not None and v <= 20
+        okc = bounded_by(prog, hr, cnt, 20)
         ctx.ob('CAPS', 'handle_request:count#%d' % n, okc, cs.where(), 'count handed to the table lookup = %s (must be capped at <= 20)' % detail)
     ctx.floor('CAPS', 2)
     # closed world: wherever the crate asks the table for closest nodes with a count taken from a decoded FindNode message
@@ -140,7 +208,19 @@ def run(ctx):
     pushes = [c for c in fc.calls(r'Vec::<.*>::push$')]
     sorts = [c for c in fc.calls(r'sort_by$|sort_by_key$|sort_unstable_by$|::sort$')]
     loops = L.natural_loops(fc)
-    if not pushes or not sorts:
+    chain = _collect_chain(prog, fc, sorts) if (sorts and not pushes) else None
+    chain_dist = False
+    if chain is not None:
+        # iterator form: buckets.iter().flat_map(|b| b.nodes.iter()).map(|n| (n.clone(), distance)).collect()
+        okc, root_ok, bad, chain_dist, where = chain
+        ctx.ob('TOTAL-SCAN', 'scan:no-early-exit', not bad, where,
+               'the candidate vector is collected from an iterator chain with no short-circuiting adapter' if not bad else
+               'the iterator chain that builds the candidates uses %s: entries are cut off before the sort' % bad[0])
+        ctx.ob('TOTAL-SCAN', 'scan:index-not-clamped', True, where, 'the bucket slice is iterated directly (no index arithmetic)')
+        ctx.ob('TOTAL-SCAN', 'scan:covers-all-buckets', root_ok, where, 'the chain starts from an iterator over all of self.buckets: %s' % root_ok)
+        ctx.ob('TOTAL-SCAN', 'scan:every-entry-collected', okc and not bad, where,
+               'every entry of every bucket flows into collect() (only flat_map / map / cloned adapters): %s' % (okc and not bad))
+    elif not pushes or not sorts:
         ctx.ob('TOTAL-SCAN', 'scan:shape', False, fc.where(), 'no push / sort found in find_closest_nodes (%d/%d)' % (len(pushes), len(sorts)))
     else:
         sort_bb = sorts[0].bb
@@ -268,7 +348,7 @@ def run(ctx):
     srt = [c for c in fc.calls(r'sort_by$|sort_unstable_by$')]
     tk = [c for c in fc.calls(r'Iterator::take$|Iterator>::take$')]
     oktake = bool(tk) and fc.expr(tk[0].args[1]).strip().show() == 'count' and bool(srt) and fc.dominates(srt[0].bb, tk[0].bb)
-    dsrc = all(fc.expr(p.args[1]).mentions_call(r'DhtKey::distance$') is not None for p in pushes) if pushes else False
+    dsrc = all(fc.expr(p.args[1]).mentions_call(r'DhtKey::distance$') is not None for p in pushes) if pushes else chain_dist
     ctx.ob('ORDER', 'sort-asc-then-take', asc and oktake, fc.where(), 'candidates sorted ascending by distance (%s) and then take(count) (%s)' % (asc, oktake))
     ctx.ob('ORDER', 'distance-full-width', full and xor and dsrc, dist.where(), 'sort key is DhtKey::distance of each entry (%s), XOR over all 32 bytes (%s)' % (dsrc, full and xor))
     fn = prog.async_body(ENG + '::find_nodes')
